@@ -44,7 +44,7 @@ def finding_key(req, obs, detail):
         reserved = _reserved("msl/src/names.rs" if tgt == "msl" else "hlsl/src/names.rs")
         return f"{tgt} {cls} {'reserved-name' if name in reserved else 'other-name'}"
     if cls in ("unsized-array-unbound", "static-object-bound", "nested-array-unbound", "struct-resource-unbound",
-               "numthreads-ambiguous"):
+               "numthreads-ambiguous", "prototype-default-unused"):
         return f"{tgt} {cls}"
     if cls == "entry-name-ambiguous":
         # bindings are reported under their leaf name: two declarations in different namespaces whose (generated)
@@ -206,7 +206,7 @@ def front_error_orders():
     pipeline / entry point 1 (and both at one pipeline), in both file layouts, with and without forward declarations.
     The answer is the first error the type checker meets in file order (attributes are parsed where a function is
     defined, a Pipeline block sees the functions registered before it)."""
-    kinds = "ABCDEFHI"
+    kinds = "ABCDEFHITQ"
 
     def build(errs, layout, fd, sampler_index=False, late=False):
         res = "g_t:Texture2D:-:-:0:0:e;g_s:SamplerState:-:-:1:0:e" + (":vi3" if sampler_index else "")
@@ -234,10 +234,30 @@ def front_error_orders():
                 eopts[j].append("nt3")
             elif kind == "I":
                 popts[j].append("b")
+            elif kind == "T":
+                # the entry point is a function template
+                eopts[j].append("tp")
+            elif kind == "Q":
+                # the entry point is named `::<name>`
+                if not stages[j]:
+                    return None
+                popts[j].append("q")
+            elif kind in "1234":
+                # exactly one property of one of the four groups a compute pipeline refuses
+                popts[j].append("gs900" + kind)
+        for j in (0, 1):
+            if "q" in popts[j] and not stages[j]:
+                return None
         if fd:
             for j in (0, 1):
-                eopts[j].append("fd")
+                if "tp" not in eopts[j]:
+                    eopts[j].append("fd")
+        for k in range(4):
+            if "tp" in eopts[k] and k not in stages[0] + stages[1]:
+                return None
         if late:
+            if "tp" in eopts[0]:
+                return None
             eopts[0].append("lo")
         ents = []
         for k, (n, st, th) in enumerate(zip(names, ["Compute", "Compute", "Vertex", "Pixel"], ["8.4.1", "4.2.1", "-", "-"])):
@@ -258,6 +278,9 @@ def front_error_orders():
     for layout in ["0", "0;L1"]:
         for fd in [False, True]:
             combos = []
+            for x in "1234":
+                combos.append(([(x, 0)], False))
+                combos.append(([(x, 1), ("E", 0)], False))
             for x in kinds:
                 combos.append(([(x, 0)], False))
                 combos.append(([(x, 1)], False))
@@ -314,7 +337,18 @@ def search(ctx):
             out.append("\t".join(["C05.meta", tgt, "name=P0", "0", res, "h0::::d0", "cs_0:Compute::0::8.4.1", "P0:-:0"]))
             out.append("\t".join(["C05.meta", tgt, "name=P0", "0;I0:::", res, "", "cs_0:Compute:::8.4.1:i0".replace(":::8", "::::8"), "P0:-:0"]))
             out.append("\t".join(["C05.meta", tgt, "name=P0", "1;I:0::;I::0:0", res, "h0:0:::r", "cs_0:Compute::::8.4.1:i1", "P0:-:0"]))
-        for sh in "iefgwdstcbvamz":
+        # default values on the prototype and the definition / on the prototype only (`po`: the compiler drops them --
+        # recorded finding on Metal), reached through a call / not called
+        for kind in ["cbuffer", "ConstantBuffer", "ByteAddressBuffer", "Texture2D", "StructuredBuffer"]:
+            res = f"g_a:{kind}:-:-:0:0:e;g_b:Texture2D:-:-:0:0:e"
+            for hopts in ["r+d0+fd", "r+d0+fd+po", "d0,1+fd+po", "d0+fd"]:
+                for calls in ["0", ""]:
+                    out.append("\t".join(["C05.meta", tgt, "name=P0", "0", res, f"h0::::{hopts}", f"cs_0:Compute:1:{calls}::8.4.1", "P0:-:0"]))
+            out.append("\t".join(["C05.meta", tgt, "name=P0", "0", res, "h0:0:::d0+fd+po;h1::0:", "cs_0:Compute::1::8.4.1", "P0:-:0"]))
+        # a pipeline name the file does not have
+        for pipes in ["P0:-:0", "P0:-:0;P1:1:0", ""]:
+            out.append("\t".join(["C05.meta", tgt, "name=P_absent", "0", "g_t:Texture2D:-:-:0:0:e", "", "cs_0:Compute:0:::8.4.1", pipes]))
+        for sh in "iefgwdstcbvamzkq":
             out.append("\t".join(["C05.meta", tgt, "name=P0", "0", "g_a:Texture2D:-:-:0:0:e;g_c:cbuffer:-:-:0:0:e", "",
                                    f"cs_0:Compute:0{sh},1{sh}:::8.4.1", "P0:-:0"]))
         # type spellings: every bindable kind declared through a typedef of the object, of an array of it, of a typedef,
